@@ -197,6 +197,44 @@ def glue_roundtrips(ctx, fmt_name, safe, workdir, r, kw=None):
     return None
 
 
+def glue_literal(ctx, workdir, r):
+    """python-literal: string and file round trips, suffix inference, and an independent ast.literal_eval reader"""
+    import ast
+    import concepts
+    try:
+        text = ctx.tostring(frmat='python-literal')
+        doc = ast.literal_eval(text)
+        want = {'objects': tuple(ctx.objects), 'properties': tuple(ctx.properties),
+                'context': [tuple(j for j, b in enumerate(row) if b) for row in ctx.bools]}
+        got = {k: (tuple(doc[k]) if k != 'context' else [tuple(t) for t in doc[k]]) for k in ('objects', 'properties', 'context')}
+        if got != want:
+            return 'python-literal text is not read back by ast.literal_eval as the documented dict'
+        if concepts.Context.fromstring(text, frmat='python-literal') != ctx:
+            return 'fromstring(tostring(python-literal)) differs'
+        if concepts.make_context(text, frmat='python-literal') != ctx:
+            return 'make_context(python-literal) differs'
+        fresh = concepts.Context(ctx.objects, ctx.properties, ctx.bools)        # lattice not computed: no lattice section
+        if concepts.Context.fromstring(fresh.tostring(frmat='python-literal'), frmat='python-literal') != ctx:
+            return 'python-literal round trip of a context without computed lattice differs'
+        for enc in ('utf-8', 'utf-16'):
+            path = os.path.join(workdir, f'lit{r.randrange(10**9)}.py')
+            ctx.tofile(path, frmat='python-literal', encoding=enc)
+            if concepts.Context.fromfile(path, frmat='python-literal', encoding=enc) != ctx:
+                return f'fromfile(tofile(python-literal, {enc})) differs'
+            up = os.path.join(workdir, f'LIT{r.randrange(10**9)}.PY')
+            shutil.copy(path, up)
+            if concepts.load(path, encoding=enc) != ctx or concepts.load(up, encoding=enc) != ctx:
+                return f'concepts.load of a .py file ({enc}) differs'
+            d = concepts.Definition.fromfile(path, frmat='python-literal', encoding=enc)
+            if (d.objects, d.properties, d.bools) != (ctx.objects, ctx.properties, ctx.bools):
+                return f'Definition.fromfile(python-literal, {enc}) differs'
+            os.remove(path)
+            os.remove(up)
+    except Exception as e:  # noqa: BLE001
+        return f'python-literal: raised {e!r}'
+    return None
+
+
 def table_ok(s):
     return bool(s) and s == s.strip() and not any(ch in s for ch in '\n\r\x0b\x0c\x1c\x1d\x1e\x85  |#')
 
@@ -296,6 +334,8 @@ def cases_for(cx, alpha_name, labels, tier, r, workdir):
     csv_safe = '\x00' not in ''.join(objs + props)
     problems.append(glue_roundtrips(ctx, 'csv', csv_safe, workdir, r))
     problems.append(glue_roundtrips(ctx, 'csv', csv_safe, workdir, r, {'bools_as_int': True}))
+    if not any('\ud800' <= ch <= '\udfff' for ch in ''.join(objs + props)):
+        problems.append(glue_literal(ctx, workdir, r))
     for pb in problems:
         if pb:
             out.append(mk('DumpFimi [] [0; 0; 7]', dict(rep, what='round trip on the real objects', problem=pb), nt, {'glue': pb}))
